@@ -17,6 +17,9 @@ import (
 	"strings"
 	"time"
 
+	"github.com/oauth2-proxy/oauth2-proxy/v7/verifx/explore"
+	"github.com/oauth2-proxy/oauth2-proxy/v7/verifx/sched"
+	"github.com/oauth2-proxy/oauth2-proxy/v7/verifx/vatomic"
 	"github.com/oauth2-proxy/oauth2-proxy/v7/verifx/world"
 )
 
@@ -867,6 +870,7 @@ func c11Run(c *Ctx) {
 		"sign_out_variants_cookie": len(c11Outs(c11Cfg{}, c.Quick())), "sign_out_variants_redis": len(c11Outs(c11Cfg{Redis: true}, c.Quick())),
 	}
 	c11HandMade(c)
+	c11Concurrent(c)
 	unit := 0
 	for ci, k := range cfgs {
 		for _, user := range users {
@@ -1076,7 +1080,7 @@ func init() {
 	register(&checkDef{
 		id:    "C11",
 		level: "model_checking",
-		rule:  "breadth-first search over histories login(alice: one cookie | carol: split cookie) -> up to k operations {request, request with refresh, refresh that grows the session by 3000 incompressible bytes, refresh that shrinks it again} -> sign-out {GET,POST} x {no rd, rd} x {at once, 2 min later (refresh inside the sign-out request), later with growing, later with shrinking session} (quick: the delayed sign-outs only as GET without rd and POST with rd) (+ Redis: DEL failing / DEL reply lost) -> replay of every cookie set the browser ever held -> the browser's next request; for store {cookie, Redis} x cookie-domain {none, one, two nested} x cookie-path {/, /app} x cookie-name {default, 254, 255, 256 characters, app.sess+ion}; each history replayed on a fresh world through the real handlers, states de-duplicated on a canonical form (jar layout, decrypted sessions, store keys and TTLs, provider state, clock offset, cookie sets ever held); states = distinct pre-sign-out states + distinct post-sign-out outcomes per search; non-trivial = distinct (configuration, state, sign-out variant) in which a live session presented at least one session cookie",
+		rule:  "breadth-first search over histories login(alice: one cookie | carol: split cookie) -> up to k operations {request, request with refresh, refresh that grows the session by 3000 incompressible bytes, refresh that shrinks it again} -> sign-out {GET,POST} x {no rd, rd} x {at once, 2 min later (refresh inside the sign-out request), later with growing, later with shrinking session} (quick: the delayed sign-outs only as GET without rd and POST with rd) (+ Redis: DEL failing / DEL reply lost) -> replay of every cookie set the browser ever held -> the browser's next request; for store {cookie, Redis} x cookie-domain {none, one, two nested} x cookie-path {/, /app} x cookie-name {default, 254, 255, 256 characters, app.sess+ion}; plus (a) sign-out presented with hand-made Cookie headers over every subset of {name, name_0..name_3} and two-digit parts (2 name lengths x 2 proxy prefixes x 2 methods) and (b) all interleavings (visited-state pruning; 3 threads: preemption bound 2 in quick, unbounded in thorough) of the sign-out with 1-2 requests of the same browser that are refreshing the shared session, at every store / lock / provider / retry-sleep step of the real proxy with the Redis store, for provider behaviours {static, rotating refresh token, refresh fails, no refresh token} (oracle: success redirect => no stored session afterwards and no replayed cookie authenticates); each history replayed on a fresh world through the real handlers, states de-duplicated on a canonical form (jar layout, decrypted sessions, store keys and TTLs, provider state, clock offset, cookie sets ever held); states = distinct pre-sign-out states + distinct post-sign-out outcomes per search; non-trivial = distinct (configuration, state, sign-out variant) in which a live session presented at least one session cookie",
 		assumptions: []string{
 			"a session cookie is a cookie named <cookie-name>, <cookie-name>_<n>, or <shortened cookie-name>_<n> (how the store names split parts when name_<n> would exceed 256 characters)",
 			"the jar deletes only on an exact (name, domain, host-only, path) match (RFC 6265 §5.3); a deletion with other attributes leaves the cookie",
@@ -1092,7 +1096,8 @@ func init() {
 				"signout_cookie_redirect", "signout_redis_redirect", "redis_key_removed", "redis_replays_refused", "cookie_store_replays_served",
 				"fault_delivered_del-err", "fault_del-err_answer_error", "replay_served_after_failed_sign_out", "fault_delivered_del-lost",
 				"layout_single", "layout_parts-2", "layout_parts-3", "layout_parts-2-truncated-names", "refresh_inside_sign_out", "histories_with_refresh", "history_requests_served",
-				"transitions_to_known_state"}
+				"transitions_to_known_state", "handmade_signouts", "conc_complete_executions", "conc_lock_contended",
+				"conc_session_saved_by_a_request_in_flight", "conc_signout_answered_success"}
 			sort.Strings(need)
 			for _, k := range need {
 				if c.Counters[k] == 0 {
@@ -1109,6 +1114,18 @@ func init() {
 				c.Shards = 1
 				c11HandMade(c)
 				return "hand-made cookie sets re-run (all of them: the part is 272 requests)"
+			}
+			var cr c11ConcReplay
+			if json.Unmarshal(raw, &cr) == nil && cr.Kind == "concurrent-sign-out" {
+				vatomic.Hooks = false
+				e := c12NewEnv()
+				defer e.up.Close()
+				defer e.redis.Close()
+				r := c11ConcExec(e, cr.Scenario, explore.Replay(cr.Choices, nil), false, c.Seed)
+				for _, v := range r.violations {
+					c.Violate(v[0], v[1], 1, cr)
+				}
+				return fmt.Sprintf("order %s outcome %s violations %d", sched.DescribeOrder(r.out.Order), r.outcome, len(r.violations))
 			}
 			var cs c11Case
 			if err := json.Unmarshal(raw, &cs); err != nil || cs.Cfg.Name == "" {
